@@ -184,6 +184,25 @@ func (sc *scene) quorumPositions(k int) []int {
 	return out
 }
 
+// randomQuorum: a random set of quorum (sometimes quorum+1) positions, ascending.
+func (sc *scene) randomQuorum(r *hx.Rand) []int {
+	k := int(sc.val.share.Quorum)
+	if k < sc.n() && r.Chance(1, 4) {
+		k++
+	}
+	in := map[int]bool{}
+	for len(in) < k {
+		in[1+r.Intn(sc.n())] = true
+	}
+	var out []int
+	for p := 1; p <= sc.n(); p++ {
+		if in[p] {
+			out = append(out, p)
+		}
+	}
+	return out
+}
+
 func (sc *scene) prepare(pos int, round uint64, value []byte) *specqbft.SignedMessage {
 	return sc.sign(pos, sc.message(specqbft.PrepareMsgType, round, sha256.Sum256(value)), nil)
 }
